@@ -99,6 +99,47 @@ theorem limit_final (n : Nat) (i : Op) (hl : linear i = true) {xs ys : List Row}
   simp only [out, ← ht]
   rw [List.take_append_of_le_length hn]
 
+/-! ### the filter's output coalescer: a liveness gap in the code as it is
+
+`filter_immediate` says when a passing row is DUE.  The real `FilterExec` hands rows on only in
+completed batches (`filterDelivered`), so a passing row that is followed only by rows that do not
+pass is never delivered, however long the input continues.  The property ("rows passing a filter
+… eventually delivered while the input continues") is therefore false for the code as it is;
+`filter_coalescer_starves` is the kernel-checked witness on the model, the harness reproduces it on
+the real operator (oracle `held-back`, known finding). -/
+
+theorem filter_replicate_fail (lo : Int) (n : Nat) (r : Row) (h : ¬ lo ≤ r.v) :
+    (List.replicate n r).filter (fun x => decide (lo ≤ x.v)) = [] := by
+  induction n with
+  | zero => rfl
+  | succ n ih => simp [List.replicate_succ, List.filter_cons, h, ih]
+
+/-- what the property demands of a filter: every due row is delivered after SOME further input -/
+def filter_progress_statement (bs : Nat) : Prop :=
+  ∀ (lo : Int) (xs : List Row) (f : Nat → Row), ∃ n,
+    (out (.filter lo .source) xs).length ≤
+      (filterDelivered bs lo (xs ++ (List.range n).map f)).length
+
+theorem filter_coalescer_starves (bs : Nat) (hbs : 2 ≤ bs) (lo : Int) (r q : Row) (hr : lo ≤ r.v)
+    (hq : ¬ lo ≤ q.v) (n : Nat) :
+    out (.filter lo .source) ([r] ++ List.replicate n q) = [r] ∧
+    filterDelivered bs lo ([r] ++ List.replicate n q) = [] := by
+  have ho : out (.filter lo .source) ([r] ++ List.replicate n q) = [r] := by
+    simp [out, List.filter_cons, hr, filter_replicate_fail lo n q hq]
+  refine ⟨ho, ?_⟩
+  simp only [filterDelivered, ho, List.length_singleton]
+  have : 1 / bs = 0 := Nat.div_eq_of_lt (by omega)
+  simp [this]
+
+/-- the demanded progress law is FALSE for every batch size ≥ 2 (with batch size 1 it holds) -/
+theorem filter_progress_fails (bs : Nat) (hbs : 2 ≤ bs) : ¬ filter_progress_statement bs := by
+  intro h
+  obtain ⟨n, hn⟩ := h 0 [⟨0, 0⟩] (fun _ => ⟨1, -1⟩)
+  have hrep : (List.range n).map (fun _ => (⟨1, -1⟩ : Row)) = List.replicate n ⟨1, -1⟩ := by
+    simp [List.map_const']
+  rw [hrep, (filter_coalescer_starves bs hbs 0 ⟨0, 0⟩ ⟨1, -1⟩ (by decide) (by decide) n).2] at hn
+  simp [out] at hn
+
 -- tests / non-vacuity
 example : out (.agg (.filter 0 .source)) [⟨1, 5⟩, ⟨1, -2⟩, ⟨1, 3⟩, ⟨2, 7⟩, ⟨3, 1⟩, ⟨3, 1⟩]
     = [⟨1, 8⟩, ⟨2, 7⟩] := by decide
